@@ -47,4 +47,69 @@ META = {
         note="Trusted: model.PathWord / PreorderLess / Walk (self-tested against each other), toolchain, rapid.",
         technique="exhaustive small-height grid + property-based differential testing vs constructive definition and pre-order comparator",
         design_ref="DESIGN.md 4/C10"),
+    "C06": dict(
+        text="Round-trip and exact-bytes testing of Marshal/Unmarshal/ReadHeader/Size/HeaderSize over generated streams of frames (five message kinds incl. legacy Marshal/Unmarshal messages, versioned forms, versions of 0..16 bytes with interior NULs, bodies from 0 bytes to 64 KiB) written to a buffer or an AtToWriter and read back through six reader chunkings; the expected wire image comes from a hand-written encoder, and a counting reader shows that each call consumes exactly one frame.",
+        note="Trusted: the hand-written wire/body encoder in harness/pbm (self-tested against the protobuf library on generated messages), the chunking readers, toolchain, rapid. Messages that fail to marshal and versions longer than 16 bytes or ending in NUL are outside the statement.",
+        technique="property-based round-trip + differential testing vs hand-written wire encoder, stream model with consumption accounting",
+        design_ref="DESIGN.md 4/C06"),
+    "C07": dict(
+        text="Fault enumeration: for each generated frame every cut point, every writer failure point and every reader error point is enumerated (all of them for frames up to 4096 bytes, boundary + keyed samples beyond) and the returned count, error class and the bytes that reached the sink are compared with an error-class model; corrupt headers (header-size / body-size fields set to hostile constants up to 2^64-1) and arbitrary bytes go into Unmarshal/ReadHeader with the running case kept on disk so that a process death (out of memory) is attributed; native fuzzing with a structured decoder in the thorough tier.",
+        note="Trusted: frame generator and wire encoder shared with C06, the fault-injecting reader/writer in harness/pbm, the driver's address-space cap (24 GiB) that turns a hostile allocation into an immediate death. Only conformant writers (short count => error) and readers are generated.",
+        technique="fault-point enumeration per generated frame + property-based corrupt-input testing + coverage-guided fuzzing, error-class oracle",
+        design_ref="DESIGN.md 4/C07"),
+    "C08": dict(
+        text="FromStr/Get/ToStr/FirstDiff/FromStrs/ToStrs compared with bit-level word extraction and packing for all four widths on generated strings over the full byte alphabet, correlated pairs and all kinds of windows; exhaustively for all 1-byte strings, and all pairs of 1-byte strings x all windows for FirstDiff.",
+        note="Trusted: bit-level oracle (model.StrBit), toolchain, rapid. Preconditions from the statement: from >= 0, end >= -1, in-range words for ToStr, Get inside the string.",
+        technique="property-based differential testing vs bit-level oracle + exhaustive 1-byte grid + coverage-guided fuzzing",
+        design_ref="DESIGN.md 4/C08"),
+    "C09": dict(
+        text="New/Len/Cmp/CmpUpto/StrCmpUpto compared with []bool bit strings under lexicographic prefix-first order on generated, deliberately correlated pairs (flips around the shorter end, prefix relations, flips in masked-off bits, payloads across the 8-byte fast path), exhaustively for all encodings of strings of length <= 2 over {00,01,7f,80,ff}; StrCmpUpto is called from four call contexts and its string argument is compared before/after.",
+        note="Trusted: []bool oracle, toolchain, rapid. Ranges outside the string are not generated; StrCmpUpto's unsafe cast is only judged by observable results/panics.",
+        technique="property-based differential testing vs bit-string model order + exhaustive small-alphabet grid + coverage-guided fuzzing",
+        design_ref="DESIGN.md 4/C09"),
+    "C11": dict(
+        text="FromStr32/PathOf/PathStr compared with bit-by-bit extraction on generated (string, start, width) triples including starts at and far beyond the end, and on a complete grid over (start mod 8, width 0..32, bytes remaining 0..6); PathsOf compared with an own map + drop-equal-to-predecessor loop on key lists with adjacent and non-adjacent repeats, including the all-ones path at height 32 (the defect found and fixed).",
+        note="Trusted: bit-level oracle, model.PathWord, toolchain, rapid. Precondition from the callers: from + width <= 2^31-1.",
+        technique="property-based differential testing vs bit-level extraction + complete alignment/width grid + coverage-guided fuzzing",
+        design_ref="DESIGN.md 4/C11"),
+    "C12": dict(
+        text="Of/ToArray/Get/Get1/SafeGet/SafeGet1/OfMany/Builder compared with a set-of-bit-positions model and the word-count formula: generated ascending lists with boundary positions and all classes of n, arbitrary bitmaps with probes inside and far outside, OfMany on segments cut from one ascending list (positions >= size occur), and Builder histories (Extend/Set, pre-sized builders) with the model compared after every step; complete grid for Of over all subsets of 8 boundary positions x 13 values of n.",
+        note="Trusted: set model, toolchain, rapid. OfMany inputs keep the concatenated list ascending (Of's documented input); the exact word count of Builder.Words beyond 'enough' is not asserted.",
+        technique="property-based differential + stateful model-based testing vs set-of-bits model + small grid + coverage-guided fuzzing",
+        design_ref="DESIGN.md 4/C12"),
+    "C13": dict(
+        text="NextOne/PrevOne compared with a naive scan on generated bitmaps with runs of zero words and boundary bits x 64 ranges each (inside a word, across words, on boundaries, empty), and exhaustively on all 216 three-word bitmaps over a 6-word palette x ALL (i,end) (about 4 M ranges each way), which is exactly the word-stepping loop the suite never observes.",
+        note="Trusted: naive scan, toolchain, rapid. Preconditions exactly as stated (i inside the bitmap for NextOne, end >= 1 for PrevOne, i <= end <= 64*len).",
+        technique="property-based differential testing vs naive scan + exhaustive 3-word grid over all ranges + coverage-guided fuzzing",
+        design_ref="DESIGN.md 4/C13"),
+    "C14": dict(
+        text="Join checked bit by bit (length, every bit, Getw at every index, values with bits above the width), Getw alone on arbitrary bitmaps, Slice checked for length ceil((to-from)/64), every bit and an unchanged input, on generated inputs for all seven widths and on a grid (Slice: 12 bitmaps x all (from,to)); found and fixed the 64x over-allocation of Slice.",
+        note="Trusted: per-bit definitions, toolchain, rapid. Widths from the documented set only.",
+        technique="property-based differential testing vs per-bit definition + grid over all ranges + coverage-guided fuzzing",
+        design_ref="DESIGN.md 4/C14"),
+    "C15": dict(
+        text="Stateful model-based testing: histories of Set/Compact (with macro steps that fill words in any order and cross the 1024-word reclaim threshold) generated state-dependently from a model, from offsets up to 2^40; after every step the Offset invariants, the first-word invariant and Get/Get1 over the whole stored window (plus 130 bits below Offset) are compared with the model, and Compact must change no Get result.",
+        note="Trusted: the o + set-of-indexes model, toolchain, rapid. Positions at or beyond the end of the stored words are not probed (outside the statement).",
+        technique="stateful model-based property testing (generated operation histories, invariants after every step)",
+        design_ref="DESIGN.md 4/C15"),
+    "C16": dict(
+        text="FirstDiffBits compared with a bit loop, CountPrefixes compared with the set of truncated bit strings (bits + length) for all sub-ranges of small key sets (sampled for large ones) and several m, on key sets built from random prefix trees that cross the 8/16-byte chunk boundaries, contain NUL-suffix families, the empty key and > 128-byte common prefixes; complete grid over all subsets (size 2..5) of a 14-key pool.",
+        note="Trusted: bit-string oracle (pairwise equalTrunc), toolchain, rapid. CountPrefixes only on strictly ascending sets with e-s >= 2 and m >= 1, as stated.",
+        technique="property-based differential testing vs bit-string set oracle + key-pool grid + coverage-guided fuzzing",
+        design_ref="DESIGN.md 4/C16"),
+    "C17": dict(
+        text="ShardByPrefix checked against a validity predicate (shape, contiguous boundaries, shard size <= maxSize, L[j] exactly the naive longest common prefix, strictly ascending shard prefixes) on generated prefix-tree key lists up to 2000 keys and maxSize from 1 to beyond n; complete grid over all subsets (size 1..6) of a 14-key pool x maxSize 1..7. Nothing about where the cuts fall is demanded, so any valid sharding passes.",
+        note="Trusted: naive LCP, toolchain, rapid. The running case is kept on disk so a stack overflow of the recursive split is attributed.",
+        technique="property-based testing against a validity predicate (both directions) + key-pool grid + coverage-guided fuzzing",
+        design_ref="DESIGN.md 4/C17"),
+    "C18": dict(
+        text="Stateful model-based testing with fault injection: histories of Write/WriteAt/Seek/Size on sections (incl. n=0 and a 2^32+5 start) and AtToWriter over a recording WriterAt with capacity and one-shot faults; after every step return values, every underlying call (position, length), the memory image, the cursor (observed through Seek(0,SeekCurrent)) and Size are compared with a reference model.",
+        note="Trusted: the cursor/section reference model and recorder, toolchain, rapid. Only conformant underlying writers; the identity of the error of a rejected Seek / negative WriteAt offset is not asserted.",
+        technique="stateful model-based property testing with injected writer faults (reference model of cursor and section)",
+        design_ref="DESIGN.md 4/C18"),
+    "C20": dict(
+        text="size.Of and the first line of size.Stat compared with a size computed compositionally by the generator itself (oracle by construction) on random acyclic values built with reflect: every scalar kind incl. uint/uintptr, strings, arrays, nil/empty/non-empty slices and maps with many key kinds, pointers, shared pointees, interface fields, generated and hand-declared structs with unexported fields, nested to depth 4; grid over every kind one level inside every container. Found and fixed the uint/uintptr panic.",
+        note="Trusted: the fixed width/header table for 64-bit platforms, the reflect-based builder, toolchain, rapid. Only the kinds the statement lists (no chan/func/unsafe.Pointer), acyclic values.",
+        technique="property-based differential testing with an oracle-by-construction (generator returns value and expected size) + kind x container grid",
+        design_ref="DESIGN.md 4/C20"),
 }
